@@ -69,14 +69,16 @@ func (w *verifyWorld) present(op Op, ct time.Time) string {
 	sess := rk.EncryptionKey{Etype: int32(et)}
 	sess.Value, _ = rcrypto.RandomToKey(et, r.Bytes(rcrypto.SeedSize(et)))
 	start := w.base.Add(-time.Hour).Truncate(time.Second)
-	etp := rk.EncTicketPart{Flags: rk.Bit(rk.FlagInitial), Key: sess, CRealm: "SIM.TEST", CName: rk.ParseName(op.Client), TrType: 1,
+	crealm, cnames := clientOf(op.Client)
+	cname := rk.PrincipalName{Type: 1, Names: cnames}
+	etp := rk.EncTicketPart{Flags: rk.Bit(rk.FlagInitial), Key: sess, CRealm: crealm, CName: cname, TrType: 1,
 		AuthTime: start, StartTime: &start, EndTime: w.base.Add(400 * time.Hour).Truncate(time.Second)}
 	tenc, err := rk.Seal(ent.Key, rk.KUTicket, etp.EncBytes(), r.Bytes(rcrypto.ConfounderSize(et)), 2, true)
 	if err != nil {
 		return "error"
 	}
 	sec := ct.Truncate(time.Second)
-	au := rk.Authenticator{CRealm: "SIM.TEST", CName: rk.ParseName(op.Client), CTime: sec, Cusec: int(ct.Sub(sec) / time.Microsecond)}
+	au := rk.Authenticator{CRealm: crealm, CName: cname, CTime: sec, Cusec: int(ct.Sub(sec) / time.Microsecond), CTimeZoneMin: op.ZoneMin}
 	aenc, err := rk.Seal(sess, rk.KUAPReqAuth, au.EncBytes(), r.Bytes(rcrypto.ConfounderSize(et)), 0, false)
 	if err != nil {
 		return "error"
@@ -86,8 +88,14 @@ func (w *verifyWorld) present(op Op, ct time.Time) string {
 		ap.Ticket.SName.Type = op.SvcNT // clear-text field of the ticket
 	}
 	st := w.settings
+	throughAlt := false
 	if op.Alt && w.alt != nil && (w.tp.AltKt == "" || w.tp.AltKt == op.Svc) {
-		st = w.alt
+		st, throughAlt = w.alt, true
+	}
+	if RelabelApplies(w.tp, op, throughAlt) {
+		// settings overriding the keytab principal take the key of the configured principal whatever
+		// the ticket says in clear; the alias of the account has the account's key
+		ap.Ticket.SName = rk.ParseName("HTTP/" + op.Relabel)
 	}
 	var g messages.APReq
 	if err := g.Unmarshal(ap.EncBytes()); err != nil {
